@@ -947,6 +947,14 @@ func init() {
 				for _, call := range an.AllCalls(fn) {
 					add(an.Callee(call), depth-1)
 				}
+				// functions and methods taken as values (returned as the combined scenario / iteration function)
+				an.Instrs(fn, func(in ssa.Instruction) {
+					if mc, ok := in.(*ssa.MakeClosure); ok {
+						if f, isF := mc.Fn.(*ssa.Function); isF {
+							add(an.Unwrap(f), depth-1)
+						}
+					}
+				})
 			}
 			for _, fn := range c.AllFuncs {
 				if core.RelPkg(fn) == "pkg/f1" && fn.Parent() == nil && fn.Name() == "CombineScenarios" {
